@@ -134,7 +134,10 @@ class VLoop(base_events.BaseEventLoop):
                 # after the program ended: is anything still alive in the loop?
                 n = 0
                 while (self._ready or self._scheduled) and n < drain_cycles:
-                    self._run_once()
+                    try:
+                        self._run_once()
+                    except Deadlock:
+                        break  # only cancelled timers were left: the loop is idle
                     n += 1
                     if self.steered is not None:
                         raise self.steered
